@@ -221,10 +221,23 @@ package logqlengine
 
 // ---- the record loop (C01, C08)
 
+// The label set of a record: cleared, then trace / span / severity / body and the three attribute
+// maps (keys sanitised). Nothing but the set is written.
 //@ func (*LabelSet).SetFromRecord
-//@   trusted
 //@   modifies l.labels, l.labels[*]
 //@   ensures l.labels != nil
+//@ func (*LabelSet).reset
+//@   modifies l.labels, l.labels[*]
+//@   ensures l.labels != nil && len(l.labels) == 0
+//@   ensures[same-map-or-a-new-one] same(l.labels, old(l.labels)) || fresh(l.labels)
+//@ func (*LabelSet).SetAttrs
+//@   requires l.labels != nil
+//@   modifies l.labels[*]
+//@   loop 0 modifies l.labels[*]
+//@ func (*LabelSet).SetAttrs$1
+//@   requires l.labels != nil
+//@   modifies l.labels[*]
+//@   ensures[attribute-under-sanitised-name] ret0 && has(l.labels, logql.Label(otelstorage.KeyToLabel(k))) && same(l.labels[logql.Label(otelstorage.KeyToLabel(k))], v)
 
 //@ func (*entryIterator).Next
 //@   capture n  = call(i.iter.Next, 0)
@@ -340,8 +353,10 @@ package logqlengine
 //@   loop 0 body_ensures[other-labels-untouched] other != p.Label && other != p.To ==> has(set.labels, other) == head(has(set.labels, other)) && same(set.labels[other], head(set.labels[other]))
 
 //@ func (*LabelSet).AsMap
-//@   trusted
 //@   modifies nothing
+//@   ensures ret0 != nil
+//@   loop 0 modifies set[*]
+//@   loop 0 invariant set != nil && fresh(set)
 
 //@ func (*LineFormat).Process
 //@   requires set.labels != nil
@@ -433,15 +448,54 @@ package logqlengine
 //@   modifies *, opened(), holds(*)
 //@   ensures[every-opened-reader-closed] opened() == old(opened())
 
+// A literal evaluates to itself: one scalar for an instant query, otherwise one point per step of
+// the grid start, start+step, ... <= end. The grid loop needs a positive step to end (C17: the
+// evaluation parameters are well-formed: instant, or a positive step).
 //@ func (*Engine).evalLiteral
-//@   trusted
+//@   requires params.IsInstant() || params.Step > 0
 //@   modifies nothing
+//@ func generateLiteralMatrix
+//@   requires params.Step > 0
+//@   modifies nothing
+//@   loop 0 modifies series.Values[*]
+//@   loop 0 invariant fresh(series.Values)
+//@   loop 0 body_ensures[one-point-per-step] len(series.Values) == head(len(series.Values)) + 1 && series.Values[len(series.Values)-1].V == strValue &&
+//@       same(series.Values[len(series.Values)-1].T, getPrometheusTimestamp(head(ts))) && ts == head(ts).Add(params.Step)
+//@   loop 0 decreases int64(end.Sub(ts)) + 1
+//@ func getPrometheusTimestamp
+//@   pure
 
 //@ func (*Engine).sampleSelector
-//@   trusted
 //@   modifies nothing
 
+// Samples of a range aggregation come from exactly the requested window, through the selector and
+// pipeline of its range expression, without a limit; a failure leaves no reader open.
+//@ func (*Engine).sampleSelector$1
+//@   capture sl = call(e.selectLogs, 0)
+//@   capture ns = call(newSampleIterator, 0)
+//@   modifies *, opened(), holds(*)
+//@   ensures[samples-the-requested-window] sl_called && sl_a3.Start == otelstorage.NewTimestampFromTime(start) && sl_a3.End == otelstorage.NewTimestampFromTime(end) && sl_a3.Limit == -1
+//@   ensures[selector-and-pipeline-of-the-range] same(sl_a1, old(expr.Range.Sel)) && same(sl_a2, old(expr.Range.Pipeline))
+//@   ensures[nothing-left-open-on-error] ret1 != nil ==> opened() == old(opened())
+
+//@ func newSampleIterator
+//@   modifies nothing
+//@   ensures[wraps-the-source] ret1 == nil ==> ret0 != nil && same(ret0.iter, iter)
+
+// Eval = parse the query text, evaluate the tree with the caller's parameters; a parse error is
+// returned as an error; whatever was opened is closed again.
+//@ func (*Engine).Eval
+//@   requires[well-formed-parameters] params.IsInstant() || params.Step > 0
+//@   capture ps = call(logql.Parse, 0)
+//@   capture ev = call(e.evalExpr, 0)
+//@   modifies *, opened(), holds(*)
+//@   ensures[parses-the-query-text] ps_called && ps_a0 == query
+//@   ensures[parse-error-surfaces] ps_r1 != nil ==> rerr != nil && !ev_called
+//@   ensures[evaluates-the-parsed-tree] ps_r1 == nil ==> ev_called && same(ev_a1, ps_r0) && same(ev_a2, params) && same(rerr, ev_r1)
+//@   ensures[every-opened-reader-closed] opened() == old(opened())
+
 //@ func (*Engine).evalExpr
+//@   requires[well-formed-parameters] params.IsInstant() || params.Step > 0
 //@   modifies *, opened(), holds(*)
 //@   ensures[every-opened-reader-closed] opened() == old(opened())
 
@@ -526,7 +580,6 @@ package logqlengine
 //@ func (EvalParams).IsInstant
 //@   inline
 //@ func (*LabelSet).AsLokiAPI
-//@   trusted
 //@   modifies nothing
 
 //@ func (*sampleIterator).Close
@@ -576,6 +629,7 @@ package logqlengine
 
 //@ func buildSampleExtractor
 //@   logical s string
+//@   modifies nothing
 //@   loop 0 modifies procs[*]
 //@   loop 0 invariant rangeindex+1 <= len(procs) && len(procs) == len(unwrap.Filters) && le != nil
 //@   ensures[count-rate-absent-count-lines] (expr.Op == logql.RangeOpCount || expr.Op == logql.RangeOpRate || expr.Op == logql.RangeOpAbsent) ==> ret1 == nil && typeis[*lineCounterExtractor](ret0)
